@@ -23,7 +23,14 @@ thread_local! {
     static MAXBITS: Cell<u64> = Cell::new(0);
     static OPS: Cell<u64> = Cell::new(0);
     static PEAK: Cell<usize> = Cell::new(0);
+    static SINCE: Cell<Option<std::time::Instant>> = Cell::new(None);
 }
+
+/// wall-clock allowance (seconds, 0 = none) for the exact arithmetic between two `reset`s; set by
+/// the quick tier.  A tree on which an accumulator that should return to a small value does not
+/// makes the rationals grow step by step, and every operation on them slower; such a trial is
+/// ended as inconclusive (like the size caps) so that the rest of the plan still runs.
+pub static SECONDS_PER_TRIAL: std::sync::atomic::AtomicU64 = std::sync::atomic::AtomicU64::new(0);
 
 /// bit-size above which a trial is declared inconclusive (numbers still work, just slowly)
 pub const BIT_CAP: u64 = 120_000;
@@ -59,6 +66,7 @@ pub fn reset() {
     MAXBITS.with(|b| b.set(0));
     OPS.with(|b| b.set(0));
     PEAK.with(|b| b.set(0));
+    SINCE.with(|b| b.set(None));
 }
 /// largest number of arena entries alive at once since the last `reset`
 pub fn peak() -> usize {
@@ -119,6 +127,22 @@ pub fn arena_len() -> usize {
 
 fn push(r: BigRational) -> Xq {
     let bits = r.numer().bits() + r.denom().bits();
+    // (the clock is read only for numbers that are already large, once in 256 of them)
+    if bits > 4096 {
+        let lim = SECONDS_PER_TRIAL.load(std::sync::atomic::Ordering::Relaxed);
+        if lim > 0 && OPS.with(|o| o.get()) % 256 == 0 {
+            let t0 = SINCE.with(|s| {
+                if s.get().is_none() {
+                    s.set(Some(std::time::Instant::now()));
+                }
+                s.get().unwrap()
+            });
+            if t0.elapsed().as_secs() >= lim {
+                BLOWN.with(|b| b.set(true));
+                panic!("XQ-BLOWN: exact arithmetic on numbers beyond 4096 bits for more than {} s in one trial", lim);
+            }
+        }
+    }
     MAXBITS.with(|m| {
         if bits > m.get() {
             m.set(bits)
